@@ -931,8 +931,8 @@ def _linear(func, args, kwargs):
 @handles("ger", "outer")
 def _ger(func, args, kwargs):
     a, b = args
-    same_dtype(a, b)
-    return like(a, apply2(T.mul, P(a)[:, None], P(b)[None, :]))
+    m = meta_call(func, args, kwargs)       # torch.ger promotes mixed dtypes (validated in the self-test)
+    return Sym.make(apply2(T.mul, apply1(toreal, P(a))[:, None], apply1(toreal, P(b))[None, :]), m.dtype)
 
 
 @handles("addmm")
@@ -946,8 +946,7 @@ def _addmm(func, args, kwargs):
 def _solve_tri(func, args, kwargs):
     A, Bm = args[0], args[1]
     upper = kwargs["upper"]; left = kwargs.get("left", True); unit = kwargs.get("unitriangular", False)
-    same_dtype(A, Bm)
-    m = meta_call(func, args, kwargs)
+    m = meta_call(func, args, kwargs)        # torch.linalg.solve_triangular promotes mixed dtypes (validated in the self-test), it does not raise
     if not left: raise Unsupported("solve_triangular left=False")
     pa, pb = apply1(toreal, P(A)), apply1(toreal, P(Bm))
     n = pa.shape[-1]; k = pb.shape[-1]
